@@ -229,6 +229,11 @@ func (p *ProofD) validate(pk *gabikeys.PublicKey) error {
 		if i < 0 || i >= len(pk.R) || attribute == nil {
 			return errors.New("invalid disclosed attribute in ProofD")
 		}
+		// An attribute that is both disclosed and hidden could be split into an arbitrary
+		// disclosed part and a hidden remainder, so that the disclosed value is meaningless.
+		if _, hidden := p.AResponses[i]; hidden {
+			return errors.New("attribute is both disclosed and hidden in ProofD")
+		}
 	}
 	for _, proofs := range p.RangeProofs {
 		for _, proof := range proofs {
